@@ -374,8 +374,14 @@ def expected_dump(text, comments=False):
 
 def match_dump(exp, d):
     """compare the oracle's value with a dump string; returns (ok, message, rest_of_dump)"""
+    for m in ("!OBS:", "!TYPED:", "!NESTED-DESTINATION-DIFFERS"):
+        if m in d:      # the harness found two observers of the library disagreeing with each other
+            return "observers of the library disagree with each other: " + d[d.index(m):][:80]
     p = Parser(d)
-    msg = p.match(exp)
+    try:
+        msg = p.match(exp)
+    except (ValueError, IndexError) as e:
+        msg = f"unreadable dump at {p.i}: {e}"
     if msg is None and p.i != len(d):
         msg = "trailing dump"
     return msg
